@@ -161,6 +161,10 @@ fn run_case(out: &mut Out, ctx: &mut Ctx, sc: &Scope, ops: &[Op], tag: &str) {
     let mut gc_above_watermark = false;
     let mut edge_log_late = false;
     let mut compared = 0u64;
+    let mut edge_created_late = false;
+    let mut late_edge_updated = false;
+    // first observation of every read at a version older than the current one: (is_edge, id, version)
+    let mut seen: std::collections::BTreeMap<(bool, u64, u64), Read> = std::collections::BTreeMap::new();
     for (pos, op) in ops.iter().enumerate() {
         // ---- before a GC: what must be preserved ----
         let gc_w = match op {
@@ -251,6 +255,37 @@ fn run_case(out: &mut Out, ctx: &mut Ctx, sc: &Scope, ops: &[Op], tag: &str) {
         let mut nodes_after = all_node_reads(&store, sc);
         let edges_after = all_edge_reads(&store, sc);
         let txn_after = all_txn_reads(&store, sc);
+        if let (Op::CreateEdge(_, _), true) = (op, res.starts_with("MId") && store.current_version > 1) {
+            edge_created_late = true;
+        }
+        if let Op::SetEdge(e, _, _) = op {
+            if res == "MOk" && read_edge(&store, *e, 1).is_none() {
+                late_edge_updated = true;
+            }
+        }
+        // reads of the past are stable (C07): a collection may only change reads below its watermark
+        if let Some(w) = gc_w {
+            seen.retain(|(_, _, v), _| *v >= w);
+        }
+        for (is_edge, m) in [(false, &nodes_after), (true, &edges_after)] {
+            for (i, row) in m.iter().enumerate() {
+                for v in 0..store.current_version {
+                    let r = &row[v as usize];
+                    match seen.get(&(is_edge, i as u64 + 1, v)) {
+                        Some(old) if old != r => {
+                            bad.get_or_insert(format!(
+                                "op {} {}: read of {} {} at version {} was {:?}, is now {:?} (current version {})",
+                                pos, h_op(op), if is_edge { "relationship" } else { "node" }, i + 1, v, old, r, store.current_version
+                            ));
+                        }
+                        Some(_) => {}
+                        None => {
+                            seen.insert((is_edge, i as u64 + 1, v), r.clone());
+                        }
+                    }
+                }
+            }
+        }
         // ---- the property's predicate, on the implementation ----
         if let (Some(w), Some((nb, eb, tb, act, wm))) = (gc_w, before) {
             if !act.is_empty() {
@@ -313,7 +348,7 @@ fn run_case(out: &mut Out, ctx: &mut Ctx, sc: &Scope, ops: &[Op], tag: &str) {
             sts += st << (2 * (id - 1));
         }
         let flat = |m: &Vec<Vec<Read>>| -> Vec<u64> { m.iter().flat_map(|r| r.iter().map(enc_read)).collect() };
-        let full = gc_w.is_some() || pos + 1 == ops.len() || matches!(ops.get(pos + 1), Some(Op::Gc(_)) | Some(Op::GcAuto));
+        let full = gc_w.is_some() || matches!(op, Op::CreateEdge(_, _) | Op::SetEdge(_, _, _)) || pos + 1 == ops.len() || matches!(ops.get(pos + 1), Some(Op::Gc(_)) | Some(Op::GcAuto));
         if full {
             obs.push(format!(
                 "ObR ({}) {} {} {} {} {}",
@@ -343,6 +378,12 @@ fn run_case(out: &mut Out, ctx: &mut Ctx, sc: &Scope, ops: &[Op], tag: &str) {
     if gc_above_watermark {
         out.count("gc_above_watermark");
     }
+    if edge_created_late {
+        out.count("edge_created_after_version_1");
+    }
+    if late_edge_updated {
+        out.count("late_edge_updated");
+    }
     if edge_log_late {
         out.count("edge_log_starts_after_creation");
     }
@@ -364,7 +405,7 @@ struct Book {
     active: Vec<u64>,
 }
 
-/// the 7 letters of the exhaustive alphabet; `val` varies with the position
+/// the 8 letters of the exhaustive alphabet; `val` varies with the position
 fn letter(l: u32, val: u64, b: &mut Book, ops: &mut Vec<Op>) {
     match l {
         0 => ops.push(Op::SetNode(1, 0, val)),
@@ -395,7 +436,9 @@ fn letter(l: u32, val: u64, b: &mut Book, ops: &mut Vec<Op>) {
             }
         }
         5 => ops.push(Op::SetNode(2, 1, val)),
-        _ => ops.push(Op::SetEdge(1, 1, val)),
+        6 => ops.push(Op::SetEdge(2, 1, val)),
+        // a relationship created at whatever version is current (id 2 the first time)
+        _ => ops.push(Op::CreateEdge(2, 1)),
     }
 }
 
@@ -424,11 +467,11 @@ fn setup(which: u8) -> (Vec<Op>, Book) {
 
 fn exhaustive(out: &mut Out, ctx: &mut Ctx, which: u8, len: usize) {
     let (prefix, b0) = setup(which);
-    let sc = Scope { nn: 2, ne: 1, k: b0.next_txn - 1 + len as u64 };
+    let sc = Scope { nn: 2, ne: 2, k: b0.next_txn - 1 + len as u64 };
     let tag = format!("x{}", which);
-    let total = 7u32.pow(len as u32);
+    let total = 8u32.pow(len as u32);
     for code in 0..total {
-        let letters: Vec<u32> = (0..len).map(|i| (code / 7u32.pow(i as u32)) % 7).collect();
+        let letters: Vec<u32> = (0..len).map(|i| (code / 8u32.pow(i as u32)) % 8).collect();
         // for every insertion point: the calls before it, the version there, the calls after
         for p in 0..=len {
             let mut b = b0.clone();
@@ -459,14 +502,15 @@ fn main() {
     let mut out = Out::new(&args, "From Verif Require Import Txn Mvcc.", "Mvcc.case", "Mvcc.check_case", 500);
     out.rule = "exhaustive: from three setups (2 nodes + 1 relationship at version 1; the same with two-entry chains at \
                 version 3; the same with a snapshot transaction active since version 2) every history of <=2/3/2 \
-                (thorough: <=3/4/3) letters from {set node 1, set relationship 1 (two keys), set node 2, version bump by a committed transaction, begin a \
+                (thorough: <=3/4/3) letters from {set node 1, set relationship 1, create relationship 2, set relationship 2, set node 2, version bump by a committed transaction, begin a \
                 snapshot transaction and leave it active, finish the oldest active transaction}, with gc_versions(w) for \
                 every w in 0..=current+1 and gc_auto inserted at every point. random: <=28 calls over <=3 nodes / 2 \
                 relationships / 4 transactions incl. creations at later versions, writes to missing ids and several GCs. \
                 After every call: result, current_version, transaction statuses, every get_node_at_version / \
                 get_edge_at_version for versions 0..=current+1 and every get_node_for_txn / get_edge_for_txn. Around every \
                 GC every (entity, version >= w) read and every active transaction's reads (when w <= watermark) are \
-                compared before/after on the implementation. Non-trivial = some GC pruned something; distinct by case text."
+                compared before/after on the implementation; every read at a version older than the current one is \
+                re-checked after every later call (only a GC may change it, and only below its watermark). Non-trivial = some GC pruned something; distinct by case text."
         .to_string();
     if ctx.mutate != 0 {
         out.notes.push("DEBUG MUTATION ACTIVE: one observation is deliberately falsified".to_string());
